@@ -192,31 +192,7 @@ func C07(p *core.Program, r *core.Report) {
 	direct := len(core.CallsToDeep(lfn, routingPkg+".Core.forward")) + len(sendInvokes(lfn))
 	r.Check(direct == 0, "deliver-xor-forward/"+fname(lfn)+"/no-send", "localDelivery neither forwards nor sends the bundle itself", p.Pos(lfn.Pos()), "", "localDelivery calls forward/Send")
 
-	// Core.HasEndpoint consults the agent manager; AgentManager.HasEndpoint consults the mux;
-	// AgentManager.Deliver hands the bundle to the mux only under HasEndpoint(destination)
-	he := p.Func(routingPkg, "Core", "HasEndpoint")
-	r.Check(len(core.CallsTo(he, routingPkg+".AgentManager.HasEndpoint")) > 0, "ownership/"+fname(he)+"/agents", "Core.HasEndpoint asks the agent manager", p.Pos(he.Pos()), "", "no call to AgentManager.HasEndpoint")
-	dl := p.Func(routingPkg, "AgentManager", "Deliver")
-	nSend := 0
-	core.EachInstr(dl, func(in ssa.Instruction) {
-		snd, ok := in.(*ssa.Send)
-		if !ok {
-			return
-		}
-		nSend++
-		conds := core.DominatingConds(snd.Block())
-		_, ok1 := callGuard(conds, routingPkg+".AgentManager.HasEndpoint", true)
-		r.Check(ok1, "hand-over/"+fname(dl)+"/send", "Deliver hands the bundle to the agents only if an agent has the destination endpoint, and returns nil only then", p.Pos(snd.Pos()), "", "send not guarded by HasEndpoint; "+condStrings(conds))
-		// every nil return passes the send
-		for _, ret := range core.Returns(dl) {
-			if c, ok := ret.Results[0].(*ssa.Const); ok && c.Value == nil {
-				okPass := core.MustPassBefore(ret, func(i ssa.Instruction) bool { return i == ssa.Instruction(snd) })
-				r.Check(okPass, "hand-over/"+fname(dl)+"/nil-return-after-send", "Deliver returns nil only after the hand-over to the multiplexer", p.Pos(ret.Pos()), "", "a nil return is reachable without the send")
-			}
-		}
-	})
-	r.Min("AgentManager.Deliver sends", 1)
-	r.Count("AgentManager.Deliver sends", nSend)
+	checkDeliverGuard(p, r)
 
 	// delivered-report / purge only after successful Deliver (shared with C15)
 	for _, c := range core.CallsTo(lfn, routingPkg+".BundleDescriptor.PurgeConstraints") {
@@ -694,4 +670,36 @@ func keysOf(m map[string]bool) []string {
 	}
 	sort.Strings(out)
 	return out
+}
+
+
+// checkDeliverGuard: AgentManager.Deliver hands the bundle to the mux only under AgentManager.HasEndpoint(destination)
+// - the test of the agents' registrations, not the broader Core.HasEndpoint (which is true for every endpoint of this
+// node) - and returns nil only after the hand-over. Shared by C07 and C15 ("delivered" is reported on that nil).
+func checkDeliverGuard(p *core.Program, r *core.Report) {
+	// Core.HasEndpoint consults the agent manager; AgentManager.HasEndpoint consults the mux;
+	// AgentManager.Deliver hands the bundle to the mux only under HasEndpoint(destination)
+	he := p.Func(routingPkg, "Core", "HasEndpoint")
+	r.Check(len(core.CallsTo(he, routingPkg+".AgentManager.HasEndpoint")) > 0, "ownership/"+fname(he)+"/agents", "Core.HasEndpoint asks the agent manager", p.Pos(he.Pos()), "", "no call to AgentManager.HasEndpoint")
+	dl := p.Func(routingPkg, "AgentManager", "Deliver")
+	nSend := 0
+	core.EachInstr(dl, func(in ssa.Instruction) {
+		snd, ok := in.(*ssa.Send)
+		if !ok {
+			return
+		}
+		nSend++
+		conds := core.DominatingConds(snd.Block())
+		_, ok1 := callGuard(conds, routingPkg+".AgentManager.HasEndpoint", true)
+		r.Check(ok1, "hand-over/"+fname(dl)+"/send", "Deliver hands the bundle to the agents only if an agent has the destination endpoint, and returns nil only then", p.Pos(snd.Pos()), "", "send not guarded by HasEndpoint; "+condStrings(conds))
+		// every nil return passes the send
+		for _, ret := range core.Returns(dl) {
+			if c, ok := ret.Results[0].(*ssa.Const); ok && c.Value == nil {
+				okPass := core.MustPassBefore(ret, func(i ssa.Instruction) bool { return i == ssa.Instruction(snd) })
+				r.Check(okPass, "hand-over/"+fname(dl)+"/nil-return-after-send", "Deliver returns nil only after the hand-over to the multiplexer", p.Pos(ret.Pos()), "", "a nil return is reachable without the send")
+			}
+		}
+	})
+	r.Min("AgentManager.Deliver sends", 1)
+	r.Count("AgentManager.Deliver sends", nSend)
 }
